@@ -352,6 +352,25 @@ class PyIterator:
         return list(self._it)
 
 
+class PySizedIterator(PyIterator):
+    """One-shot iterator that also reports its remaining length (like a data
+    loader / batch iterator): Sized and Iterable, but not a Collection."""
+    def __len__(self):
+        LOG.append((self._tag, 'len', None))
+        return len(self.planted)
+
+    def __repr__(self):
+        LOG.append((self._tag, 'repr', None))
+        return f'PySizedIterator(<{len(self.planted)} planted>)'
+
+
+class PySizedIterable(PyIterable):
+    """Re-iterable with __len__ but without __contains__: not a Collection either."""
+    def __len__(self):
+        LOG.append((self._tag, 'len', None))
+        return len(self._items)
+
+
 def make_generator(items, tag='generator'):
     """A real generator whose consumption is logged."""
     def g():
